@@ -288,14 +288,14 @@ static void exec_call(TasmanianSparseGrid &grid, const std::vector<std::string> 
         write_sparse(sink(t, 2), grid.getNumPoints(), pntr, indx, vals);
     }else if (op == "integrate"){
         auto q = grid.integrate();
-        emit(sink(t, 1), 1, outs, q.data());
+        emit(sink(t, 1), outs, 1, q.data());          // the tool writes one row per output
     }else if (op == "hsupport"){
         auto s = grid.getHierarchicalSupport();
         emit(sink(t, 1), grid.getNumPoints(), dims, s.data());
     }else if (op == "aniso_coeff"){
         auto ab = grid.estimateAnisotropicCoefficients(TY(1), I(2));
         std::vector<double> d(ab.begin(), ab.end());
-        emit(sink(t, 3), 1, (int) d.size(), d.data());
+        emit(sink(t, 3), (int) d.size(), 1, d.data());  // one row per coefficient
     }else if (op == "get_coeff"){
         const double *c = grid.getHierarchicalCoefficients();
         int n = grid.getNumPoints();
